@@ -607,3 +607,72 @@ def populate_contract(ck, mod):
         f.close()
     ck.enumerations.append(("dmd.populate.values_round_trip", n, len(bad), bad[:3]))
     ck.struct("dmd.populate.values_round_trip", not bad, "_populate_data does not return what was stored: %s" % (bad[:3],), {"no_input": False})
+
+
+def params_contract(ck):
+    """Digital Metadata channel parameters (enumerated on real files): what the writer was created with is what a reader and a later
+    writer find - cadences, rational rate and file prefix are stored and read back unchanged; parameter sets that break the cadence rule
+    (file cadence divides the subdirectory cadence; positive integers) are refused; a later writer whose parameters differ in any one
+    place is refused and leaves dmd_properties.h5 byte-identical."""
+    import os, tempfile, shutil, hashlib, itertools
+    pkg = pyload.package()
+    dm = pyload.module("digital_metadata", symbolic=False)
+    for nm in ("DigitalMetadataWriter.__init__", "DigitalMetadataWriter._parse_properties", "DigitalMetadataWriter._write_properties", "DigitalMetadataReader.__init__"):
+        ck.add_function(pyload.source_info(dm, nm))
+    base = tempfile.mkdtemp(prefix="dvc_dmdp_")
+    bad = []
+    n = 0
+    try:
+        good = [(3600, 60, 100, 1, "md"), (10, 10, 200, 3, "metadata"), (120, 4, 250000000, 7, "x"), (1, 1, 1, 1, "m"), (86400, 3600, 12500001, 2, "tag")]
+        for k, (S, C, num, den, name) in enumerate(good):
+            d = os.path.join(base, "g%d" % k)
+            os.makedirs(d)
+            n += 1
+            try:
+                w = pkg.DigitalMetadataWriter(d, S, C, num, den, name)
+                r = pkg.DigitalMetadataReader(d, accept_empty=True)
+                got = (r.get_subdir_cadence_secs(), r.get_file_cadence_secs(), r.get_sample_rate_numerator(), r.get_sample_rate_denominator(), r.get_file_name_prefix())
+                if tuple(int(x) if not isinstance(x, str) else x for x in got) != (S, C, num, den, name):
+                    bad.append(("round trip", (S, C, num, den, name), got))
+                wv = (w._subdir_cadence_secs, w._file_cadence_secs, w._sample_rate_numerator, w._sample_rate_denominator, w._file_name)
+                if wv != (S, C, num, den, name):
+                    bad.append(("writer state", (S, C, num, den, name), wv))
+            except Exception as e:
+                bad.append(("valid parameters refused", (S, C, num, den, name), repr(e)))
+                continue
+            pf = os.path.join(d, "dmd_properties.h5")
+            h0 = hashlib.md5(open(pf, "rb").read()).hexdigest()
+            # a later writer: same parameters accepted, any single difference refused, file untouched
+            n += 1
+            try:
+                pkg.DigitalMetadataWriter(d, S, C, num, den, name)
+            except Exception as e:
+                bad.append(("same parameters refused by a later writer", (S, C, num, den, name), repr(e)))
+            for i, alt in enumerate([(S * 2, C, num, den, name), (S, C * 2 if S % (C * 2) == 0 else C + S, num, den, name), (S, C, num + 1, den, name), (S, C, num, den + 1, name), (S, C, num, den, name + "2")]):
+                n += 1
+                if alt[0] % alt[1] != 0:
+                    continue
+                try:
+                    pkg.DigitalMetadataWriter(d, *alt)
+                    bad.append(("mismatching later writer accepted", (S, C, num, den, name), alt))
+                except (ValueError, IOError):
+                    pass
+                if hashlib.md5(open(pf, "rb").read()).hexdigest() != h0:
+                    bad.append(("properties file changed by a refused writer", (S, C, num, den, name), alt))
+        for k, (S, C, num, den, name) in enumerate([(60, 7, 100, 1, "md"), (10, 20, 100, 1, "md"), (0, 1, 100, 1, "md"), (10, 0, 100, 1, "md"), (10.5, 1, 100, 1, "md"), (10, 1, 0, 1, "md"), (10, 1, 100, 0, "md"), (10, 1, 1.5, 1, "md")]):
+            d = os.path.join(base, "b%d" % k)
+            os.makedirs(d)
+            n += 1
+            try:
+                pkg.DigitalMetadataWriter(d, S, C, num, den, name)
+                bad.append(("invalid parameters accepted", (S, C, num, den, name)))
+            except (ValueError, ZeroDivisionError):
+                pass
+            except Exception as e:
+                bad.append(("invalid parameters: wrong exception", (S, C, num, den, name), repr(e)))
+            if os.path.exists(os.path.join(d, "dmd_properties.h5")):
+                bad.append(("refused parameters left a properties file", (S, C, num, den, name)))
+    finally:
+        shutil.rmtree(base, ignore_errors=True)
+    ck.enumerations.append(("dmd.params.stored_and_enforced", n, len(bad), bad[:3]))
+    ck.struct("dmd.params.stored_and_enforced", not bad, "metadata channel parameters: %s" % (bad[:3],), {"no_input": False})
